@@ -1187,7 +1187,6 @@ fn fill_reopen(g: &mut Gen, rng: &mut Rng, kind: &str) {
 
 fn fill_case(g: &mut Gen, rng: &mut Rng, sp: &FillSpec) {
     let kind = sp.kind;
-    eprintln!("TIMING fill_case start {} {}", sp.label, std::time::SystemTime::now().duration_since(std::time::UNIX_EPOCH).unwrap().as_millis() % 1000000);
     g.begin(kind);
     let b = rng.below(16) as u8;
     g.s.tally(&format!("fill.case.{kind}.{}", sp.label));
@@ -1297,7 +1296,6 @@ fn sorted_case(g: &mut Gen, rng: &mut Rng, sp: &SortedSpec) {
     let pp = ENTRIES_PER_PAGE;
     let cap = (MIN_UPDATE_SECTION_SIZE / UPDATE_PAGE_SIZE) * pp;
     let nb = sorted_crossing(sp.k);
-    eprintln!("TIMING sorted_case start {} {}", sp.label, std::time::SystemTime::now().duration_since(std::time::UNIX_EPOCH).unwrap().as_millis() % 1000000);
     g.begin(kind);
     let b = rng.below(16) as u8;
     g.s.tally(&format!("fill.case.{kind}.{}", sp.label));
@@ -1328,21 +1326,29 @@ fn sorted_case(g: &mut Gen, rng: &mut Rng, sp: &SortedSpec) {
             _ => { if let Some(k) = others.last().copied() { fill_get(g, kind, &k); } }
         }
     }
-    // station: drop + open again BEFORE any further mutation of the bucket, then every key of the
-    // bucket by query (newest first; removed ones too), the newest 24 / oldest 3 / 16 others and
-    // the last removed ones by read, the entry count
-    fn station(g: &mut Gen, rng: &mut Rng, kind: &str, name: &str, mine: &[[u8; 16]], gone: &[[u8; 16]], others: &[[u8; 16]]) {
+    // station: drop + open again BEFORE any further mutation of the bucket, then (`full`) every
+    // key of the bucket by query, newest first, and the entry count - or the newest 64 (every
+    // pending one is among them) and 64 others -, every removed key by query, the newest 24 /
+    // oldest 3 / 16 others and the last removed ones by read
+    fn station(g: &mut Gen, rng: &mut Rng, kind: &str, name: &str, full: bool, mine: &[[u8; 16]], gone: &[[u8; 16]], others: &[[u8; 16]]) {
         g.s.tally(&format!("fill.sorted_station.{name}"));
+        g.s.tally(if full { "fill.sorted_station_sweep.every-key" } else { "fill.sorted_station_sweep.newest-64-and-sample" });
         fill_reopen(g, rng, kind);
-        for k in mine.iter().rev().chain(gone.iter().rev()) { g.emit(format!("q {}", hex::encode(k))); }
         let n = mine.len();
+        if full {
+            for k in mine.iter().rev() { g.emit(format!("q {}", hex::encode(k))); }
+        } else {
+            for k in mine.iter().rev().take(64) { g.emit(format!("q {}", hex::encode(k))); }
+            for _ in 0..64 { if n > 0 { let k = *rng.pick(mine); g.emit(format!("q {}", hex::encode(k))); } }
+        }
+        for k in gone.iter().rev() { g.emit(format!("q {}", hex::encode(k))); }
         let mut ix: Vec<usize> = (n.saturating_sub(24)..n).rev().collect();
         ix.extend(0..n.min(3));
         for _ in 0..16 { if n > 0 { ix.push(rng.below(n as u64) as usize); } }
         for i in ix { fill_get(g, kind, &mine[i]); }
         for k in gone.iter().rev().take(8) { fill_get(g, kind, k); }
         if let Some(k) = others.last() { fill_get(g, kind, k); }
-        if kind == "dyn" { g.emit("count".into()); }
+        if kind == "dyn" && full { g.emit("count".into()); }
     }
     let pend_class = |p: usize| if p == 1 { "1".to_string() } else if p <= 3 { "2-3".into() } else if p <= pp { "within-page".into() } else { "several-pages".into() };
 
@@ -1365,15 +1371,15 @@ fn sorted_case(g: &mut Gen, rng: &mut Rng, sp: &SortedSpec) {
                 (0..rng.range(2, 2 * pp as u64 + 2)).map(|_| rng.chance(1, 6)).collect()
             };
             for rm in &script { mutate(g, rng, kind, b, *rm, &mut seen, &mut mine, &mut gone); }
-            station(g, rng, kind, &format!("{kind}.boundary{}.flushed={rel}.pending={}", sp.k, pend_class(script.len())), &mine, &gone, &others);
+            station(g, rng, kind, &format!("{kind}.boundary{}.flushed={rel}.pending={}", sp.k, pend_class(script.len())), i % 2 == 1, &mine, &gone, &others);
             if i < 3 { debug_assert_eq!(mine.len(), nb + i); }
         }
         // the reloaded update section is appended to, saved and loaded once more
         for _ in 0..rng.range(1, pp as u64 + 2) { mutate(g, rng, kind, b, false, &mut seen, &mut mine, &mut gone); }
-        station(g, rng, kind, &format!("{kind}.boundary{}.flushed=beyond.pending=appended-after-reload", sp.k), &mine, &gone, &others);
+        station(g, rng, kind, &format!("{kind}.boundary{}.flushed=beyond.pending=appended-after-reload", sp.k), false, &mine, &gone, &others);
         // nothing pending: the file is the sorted section alone
         g.emit(format!("flush {b}"));
-        station(g, rng, kind, &format!("{kind}.boundary{}.flushed=beyond.pending=0", sp.k), &mine, &gone, &others);
+        station(g, rng, kind, &format!("{kind}.boundary{}.flushed=beyond.pending=0", sp.k), true, &mine, &gone, &others);
     } else {
         // ---- implicit merges only: mutation r*cap+1 finds the section full and merges r*cap
         // entries (fewer by the removes) into the sorted section; stations at the last full
@@ -1390,13 +1396,14 @@ fn sorted_case(g: &mut Gen, rng: &mut Rng, sp: &SortedSpec) {
             mutate(g, rng, kind, b, rm, &mut seen, &mut mine, &mut gone);
             if let Some(i) = st.iter().position(|x| *x == m) {
                 let rel = ["section-full-before-crossing-merge", "merged-first-pending", "merged-second-pending", "merged-second-page"][i];
-                station(g, rng, kind, &format!("{kind}.boundary{}.implicit.{rel}", sp.k), &mine, &gone, &others);
+                station(g, rng, kind, &format!("{kind}.boundary{}.implicit.{rel}", sp.k), i % 2 == 1, &mine, &gone, &others);
             } else if rng.below(1000) < sp.noise { noise(g, rng, kind, b, &mut seen, &mine, &mut others); }
         }
     }
-    // final sweep: every key by query, a sample (or all) by read
+    // final sweep (the last station has just queried every key of the bucket): the keys of
+    // other buckets by query, a sample (or all) by read
     let ks = g.keys.clone();
-    for k in ks.iter().chain(gone.iter()) { g.emit(format!("q {}", hex::encode(k))); }
+    for k in others.iter() { g.emit(format!("q {}", hex::encode(k))); }
     if sp.read_all {
         for k in ks.iter().chain(gone.iter()) { fill_get(g, kind, k); }
     } else {
@@ -1472,7 +1479,7 @@ fn main() {
     let args = Args::parse();
     quiet_panics();
     let mut s = Session::new(&args.out);
-    s.rule = "seeded histories on the real DynamicContainer (with a ResidencyContainer), Installation and ArchiveManager, one temp dir per case: 1..14 writes whose sizes follow a programme (large-then-small, slowly growing, equal, file exactly doubling +-1, empty payloads between others, one big then many tiny, random; every 9th case 20-70 KB payloads) with payload classes random / constant fill / 'BLTE'+garbage / 'BLTE' at 0x1E / whole valid BLTE file (N, Z, LZ4) / image of a local entry (30-byte header + BLTE) / the 49-byte witness shape; interleaved reads of earlier keys (own tail or foreign tail after the 9-byte prefix, absent keys; buffer = len, len-1, 0, len/2, len+64), queries, removes, flush/flushall, reopen (drop + new + open/initialize), residency-mark and entry counts; final sweep reads every key; fill cases (dyn and inst): payloads crafted by search so that their index key (MD5-derived) falls into ONE chosen bucket, driving that bucket's update section through its page boundaries (8 cases: 1-4 pages, stations at k*per_page-1, k*per_page, +1, +2) and its capacity (3 cases: cap-1, cap, cap+1 = the mutation that finds the section full and flushes implicitly, cap+2; pure writes on a DynamicContainer, writes on an Installation, and a DynamicContainer case with a flushed prefix, noise in other buckets, mid-fill reopens and the overflowing mutation being a remove; thorough also the second overflow at 2*cap+1) - at every station the store is dropped and opened again BEFORE any further mutation of the bucket, then every key of the bucket is queried (newest first), the newest 24 / oldest 3 / 16 random ones and the removed ones are read, entry_count is compared, and the case ends with a full read+query sweep; arch stream: modes N/Z/LZ4, read_content / read_raw of exact entries, header-less BLTE slice, short slices, ranges beyond the mapping, unknown archive, reopen; non-trivial = the case read a key written before a later write, or after a reopen, or a BLTE-shaped payload; distinct = canonical request text of the case".into();
+    s.rule = "seeded histories on the real DynamicContainer (with a ResidencyContainer), Installation and ArchiveManager, one temp dir per case: 1..14 writes whose sizes follow a programme (large-then-small, slowly growing, equal, file exactly doubling +-1, empty payloads between others, one big then many tiny, random; every 9th case 20-70 KB payloads) with payload classes random / constant fill / 'BLTE'+garbage / 'BLTE' at 0x1E / whole valid BLTE file (N, Z, LZ4) / image of a local entry (30-byte header + BLTE) / the 49-byte witness shape; interleaved reads of earlier keys (own tail or foreign tail after the 9-byte prefix, absent keys; buffer = len, len-1, 0, len/2, len+64), queries, removes, flush/flushall, reopen (drop + new + open/initialize), residency-mark and entry counts; final sweep reads every key; fill cases (dyn and inst): payloads crafted by search so that their index key (MD5-derived) falls into ONE chosen bucket, driving that bucket's update section through its page boundaries (8 cases: 1-4 pages, stations at k*per_page-1, k*per_page, +1, +2) and its capacity (3 cases: cap-1, cap, cap+1 = the mutation that finds the section full and flushes implicitly, cap+2; pure writes on a DynamicContainer, writes on an Installation, and a DynamicContainer case with a flushed prefix, noise in other buckets, mid-fill reopens and the overflowing mutation being a remove; thorough also the second overflow at 2*cap+1) - at every station the store is dropped and opened again BEFORE any further mutation of the bucket, then every key of the bucket is queried (newest first), the newest 24 / oldest 3 / 16 random ones and the removed ones are read, entry_count is compared, and the case ends with a full read+query sweep; sorted-section size cases (the update section of a bucket's .idx file lies at the next multiple of UPDATE_SECTION_ALIGNMENT = 64 KiB behind the 40 + 18 x n bytes of the n FLUSHED entries, computed by save_index and by load_index each on its own: 65536 up to n = 3638, 131072 from n = 3639, 196608 from n = 7280): one DynamicContainer case fills one bucket (payload search; a few removes on the way) to crossing-1 = 3638 keys, then flush(bucket) at exactly 3638 / 3639 / 3640 / 3641 keys, each followed by 1-3 pending mutations (write, or write+remove+write) resp. 2..2*per_page+1 pending ones with removes, then drop + open and a sweep (every key of the bucket by query at 3639, 3641 and at the end, otherwise the newest 64 - which include every pending one - and 64 random ones; every removed key; newest 24 / oldest 3 / 16 random keys by read; entry_count), then appends to the RELOADED update section + reopen + sweep, then flush + reopen + sweep (file without update section); one Installation case (no flush there) writes 3*capacity+2 pages into one bucket so that the third implicit merge (mutation 3781) takes the sorted section to 3780 entries, with reopen + sweep at 3780 (section full, 2520 sorted: still below the boundary), 3781, 3782 and in the second page; thorough also the DynamicContainer implicit-merge variant with noise, and the next boundary (7279..7282 flushed entries exactly; Installation to 6*capacity+1) with every key read at the end; arch stream: modes N/Z/LZ4, read_content / read_raw of exact entries, header-less BLTE slice, short slices, ranges beyond the mapping, unknown archive, reopen; non-trivial = the case read a key written before a later write, or after a reopen, or a BLTE-shaped payload; distinct = canonical request text of the case".into();
     let mut rng = Rng::new(args.seed);
     let rt = tokio::runtime::Builder::new_current_thread().enable_all().build().expect("runtime");
     let h = H { mode: Mode::None, rt, trace: vec![], failed: false, st_hist_reads: 0, st_reopen_reads: 0, st_blte_reads: 0, st_small_after_large: 0, last_total: 0, bmut: [0; 16], bsorted: [0; 16], bpend: [0; 16], blive: [0; 16] };
@@ -1494,17 +1501,11 @@ fn main() {
     {
         let t = args.thorough();
         let mut g = Gen { h, s: &mut s, case_text: String::new(), keys: vec![] };
-        let t0 = std::time::Instant::now();
         run_store(&mut g, &mut rng, "dyn", if t { 1500 } else { 170 }, t);
-        eprintln!("TIMING dyn {:?}", t0.elapsed());
         run_store(&mut g, &mut rng, "inst", if t { 900 } else { 110 }, t);
-        eprintln!("TIMING inst {:?}", t0.elapsed());
         run_arch(&mut g, &mut rng, if t { 700 } else { 90 });
-        eprintln!("TIMING arch {:?}", t0.elapsed());
         run_lim(&mut g, &mut rng, if t { 60 } else { 10 }, t);
-        eprintln!("TIMING lim {:?}", t0.elapsed());
         run_fill(&mut g, &mut rng, t);
-        eprintln!("TIMING fill {:?}", t0.elapsed());
     }
     s.finish();
 }
